@@ -287,6 +287,12 @@ impl Decoder for Codec {
                     OpCode::Pong => Ok(Some(Frame::Pong(
                         payload.map(|pl| pl.freeze()).unwrap_or_else(Bytes::new),
                     ))),
+                    // a new data frame must not start inside a fragmented message
+                    OpCode::Binary | OpCode::Text
+                        if self.flags.contains(Flags::CONTINUATION) =>
+                    {
+                        Err(ProtocolError::ContinuationStarted)
+                    }
                     OpCode::Binary => Ok(Some(Frame::Binary(
                         payload.map(|pl| pl.freeze()).unwrap_or_else(Bytes::new),
                     ))),
